@@ -131,3 +131,14 @@ package codegen
 //@   ensures [C01,C20] present-afterwards: imports_have(p.Imports, qualifiedName)
 //@   ensures [C01,C20] one-import-per-path: imports_count(p.Imports, qualifiedName) == 1
 //@   ensures [C01] others-kept: len(p.Imports) == old(len(p.Imports)) + (old(imports_have(p.Imports, qualifiedName)) ? 0 : 1)
+
+// ---- the name a package is referred to by (C20) ----------------------------------
+// The last element of the import path; a path without '/' or ending in '/' is its
+// own name. Cross-package references are qualified with it and the import is
+// declared under it.
+//@ func (*Package).Name
+//@   props C20 C01
+//@   shape p = new
+//@   shape p.QualifiedName = "github.com/a/b" | "a/b" | "b" | "" | "a/" | "/b" | "a//b"
+//@   assigns nothing
+//@   ensures [C20,C01] last-path-element: result == (p.QualifiedName == "github.com/a/b" || p.QualifiedName == "a/b" || p.QualifiedName == "/b" || p.QualifiedName == "a//b" ? "b" : p.QualifiedName)
